@@ -69,6 +69,14 @@ func cmdVerify(args []string) {
 				units = append(units, w.verifyLemma(p, cs, cs.Lemmas[name]))
 				continue
 			}
+			if strings.HasPrefix(key, "fieldpartition:") {
+				for _, fp := range cs.Partitions {
+					if fp.Type == strings.TrimPrefix(key, "fieldpartition:") && (len(want) == 0 || want[key]) {
+						units = append(units, w.verifyFieldPartition(p, fp))
+					}
+				}
+				continue
+			}
 			if strings.HasPrefix(key, "immutable:") {
 				for _, d := range cs.Immutable {
 					if d.Name == strings.TrimPrefix(key, "immutable:") && (len(want) == 0 || want[key]) {
